@@ -96,7 +96,9 @@ def merge_results(mod, cases, results, capped, not_run, env):
         for v in r['violations']:
             if v['key'] not in viol_by_key:
                 viol_by_key[v['key']] = dict(v, case_index=idx, case=cases[idx], count=0)
-            viol_by_key[v['key']]['count'] += 1
+        for k_, n_ in r.get('per_key', {}).items():
+            if k_ in viol_by_key:
+                viol_by_key[k_]['count'] += n_
         if r['agg'] is not None:
             aggs.append((idx, r['agg']))
         if r['sample'] is not None and len(samples) < 6:
